@@ -59,12 +59,14 @@ def _gen(g):
         typed = g.bool()
         pool = [0, 1, 2, 3] + (([4, 5] if typed else [g.choice([4, 5])]) if g.bool() else [])
         return {"kind": "seq", "maxsize": g.choice([None, 0, 1, 2, 3]), "typed": typed,
-                "keys": [g.choice(pool) for _ in range(g.int(1, 16))]}
+                "keys": [g.choice(pool) for _ in range(g.int(1, 16))],
+                "kw": [g.chance(30) for _ in range(16)]}
     typed = g.chance(25)
     nkeys = g.int(2, 4)
     pool = list(range(nkeys)) + ([4, 5] if typed or g.chance(15) else [])
     ncall = g.int(2, 6)
-    callers = [[g.int(0, 4), g.choice(pool)] for _ in range(ncall)]
+    usekw = g.chance(25)
+    callers = [[g.int(0, 4), g.choice(pool), usekw and g.chance(50)] for _ in range(ncall)]
     ctl = []
     ttl = g.choice([None, None, None, 2])
     for _ in range(g.int(2, 12)):
@@ -88,8 +90,9 @@ def strategy(tier):
     return _strategy()
 
 
-def canon(key, typed):
-    return (key, type(key)) if typed else key
+def canon(key, typed, kw=False):
+    c = (key, type(key)) if typed else key
+    return ("kw", c) if kw else c
 
 
 # ------------------------------------------------------------------ sequential differential
@@ -115,8 +118,12 @@ def run_seq(case, out):
         for i, ki in enumerate(case["keys"]):
             k = KEYS[ki]
             c0, e0 = calls[0], execs[0]
-            ref(k)
-            await fn(k)
+            if case.get("kw") and case["kw"][i % len(case["kw"])]:
+                ref(k=k)
+                await fn(k=k)
+            else:
+                ref(k)
+                await fn(k)
             if (calls[0] - c0) != (execs[0] - e0):
                 out.bad("c20:seq-differential", "executed-vs-served",
                         f"{case}: call #{i} key {k!r}: stdlib executed={calls[0] - c0} anyio executed={execs[0] - e0}")
@@ -147,8 +154,9 @@ def run_conc(case, out, stats):
         probing = [False]
 
         @lru_cache(maxsize=maxsize, typed=typed, ttl=ttl, always_checkpoint=case["ac"])
-        async def fn(k):
-            ck = canon(k, typed)
+        async def fn(*a, **kwa):
+            k = a[0] if a else kwa["k"]
+            ck = canon(k, typed, not a)
             n = len(execs)
             rec = {"key": k, "ck": ck, "n": n, "gate": Event(), "state": "running", "t_done": None}
             execs.append(rec)
@@ -205,9 +213,10 @@ def run_conc(case, out, stats):
         results = {}
 
         async def caller(cid):
-            delay, ki = case["callers"][cid]
+            delay, ki = case["callers"][cid][:2]
+            usekw = len(case["callers"][cid]) > 2 and case["callers"][cid][2]
             k = KEYS[ki]
-            ck = canon(k, typed)
+            ck = canon(k, typed, usekw)
             await sim.delay(delay)
             if ttl is not None and any(v[0] == ck for v in in_call.values()) and any(
                     r["ck"] == ck and r["state"] == "done" and loop.time() >= r["t_done"] + ttl for r in execs):
@@ -218,7 +227,7 @@ def run_conc(case, out, stats):
             try:
                 with sim.op(cid) as sc:
                     try:
-                        v = await fn(k)
+                        v = await (fn(k=k) if usekw else fn(k))
                     finally:
                         meta = in_call.pop(cid)
             except Boom as e:
@@ -314,10 +323,12 @@ def run_conc(case, out, stats):
             probing[0] = True
             served = 0
             for ck in sorted(keys_used, key=repr):
-                k = ck[0] if typed else ck
+                pkw = isinstance(ck, tuple) and len(ck) == 2 and ck[0] == "kw"
+                base = ck[1] if pkw else ck
+                k = base[0] if typed else base
                 n0 = len(execs)
                 try:
-                    v = await fn(k)
+                    v = await (fn(k=k) if pkw else fn(k))
                 except Exception as e:  # noqa: BLE001
                     out.bad("c20:internal-error", sig(), f"probe of key {k!r} raised {type(e).__name__}: {e!r}")
                     continue
